@@ -35,6 +35,10 @@ class Report:
         print(s, flush=True)
 
 
+RETRY_TIMEOUTS = (120, 30, 120)  # second-attempt budgets (z3 5.1, cvc5, z3 4.8), seconds; preferred solver of the group first
+RETRY_MAX = 16                   # at most this many obligations get a second attempt (4 at a time): bounds the cost
+
+
 def run_property(prop, tier, seed, opts):
     from . import verify as V
     from . import concrete as C
@@ -75,7 +79,13 @@ def run_property(prop, tier, seed, opts):
     from . import discharge as _DD
     _DD.PREFERRED.clear()
     _DD.PREFERRED.update(baseline.get("solver", {}))
-    timeouts = (20, 20, 40) if tier == "quick" else (40, 60, 120)
+    # budgets per solver (z3 5.1, cvc5, z3 4.8), seconds.  The slowest obligation of the pinned tree takes 10 s alone and
+    # 18 s with 16 solvers running; the first budget leaves a factor of three over that, and an obligation still
+    # `unknown`, with no failing input found by the bounded runner either, gets a second attempt at low concurrency and
+    # with RETRY_TIMEOUTS before it is reported (see step 3b): a time-out caused by machine load is not a lost proof.
+    timeouts = (60, 20, 60) if tier == "quick" else (90, 60, 120)
+    if os.environ.get("VERIF_SOLVER_BUDGET"):  # debugging aid: "z3new,cvc5,z3old" seconds for the first attempt
+        timeouts = tuple(int(x) for x in os.environ["VERIF_SOLVER_BUDGET"].split(","))
     results, tm = V.verify_units(l1, D.REPO, outdir, timeouts=timeouts, group=getattr(opts, "group", None))
     n_obl = n_dis = 0
     by_solver = {}
@@ -192,6 +202,46 @@ def run_property(prop, tier, seed, opts):
                 continue
             handle_violation(rep, known, c, v.get("clause"), v.get("args"), v, obligation=f"{c.key}::{v.get('clause')}",
                              solver=None, source="bounded enumeration of the executable contract on the real function")
+    # ---- 3b. second attempt for obligations that were proved on the pinned tree and are now `unknown` -------------
+    # Only `unknown` answers are retried (sat / unsat are final), only where neither a replayed counter-model nor the
+    # bounded runner produced a failing input for the contract, four solver processes at a time.
+    from concurrent.futures import ThreadPoolExecutor
+    retry = []
+    # a function that already has a failing input (under any of its contracts) is broken for certain: its `unknown`
+    # obligations are reported as they stand, without spending the second attempt on them
+    broken = {reg[w[0]].target for w in rep.violations if w[0] in reg}
+    for key, items in need_bounded.items():
+        if reg[key].target in broken:
+            continue
+        for r, o, args, out in items:
+            if o.status == "unknown" and o.smt2 and o.group in baseline.get("proved", []):
+                retry.append(o)
+    if retry:
+        t_retry = time.time()
+
+        def again(o):
+            note0, time0 = o.note, o.time
+            o.note = note0[0] if isinstance(note0, tuple) else note0
+            _DD.discharge_one(o, open(o.smt2).read(), outdir, RETRY_TIMEOUTS)
+            tried0 = list(note0[1]) if isinstance(note0, tuple) and len(note0) > 1 else []
+            if isinstance(o.note, tuple) and len(o.note) > 1:
+                o.note = (o.note[0], tried0 + [("second-attempt", "", 0.0)] + list(o.note[1])) + tuple(o.note[2:])
+            o.time += time0
+            return o
+        with ThreadPoolExecutor(max_workers=4) as pool:
+            list(pool.map(again, retry[:RETRY_MAX]))
+        tm["solve_s"] += time.time() - t_retry
+        for o in retry:
+            if o.status == "unsat":
+                n_dis += 1
+                by_solver[o.solver] = by_solver.get(o.solver, 0) + 1
+                sts = group_status[o.group]
+                sts[sts.index("unknown")] = "unsat"
+                rep.say(f"NOTE obligation {o.group} (line {o.line}) discharged on the second attempt by {o.solver} "
+                        f"in {o.time:.0f}s total (first attempt timed out)")
+        for key in list(need_bounded):
+            need_bounded[key] = [it for it in need_bounded[key] if it[1].status != "unsat"]
+
     for key, items in need_bounded.items():
         c = reg[key]
         already = any(w[0] == key for w in rep.violations) or any(w[0] == key for w in rep.known_printed)
